@@ -71,6 +71,8 @@ _ZYG_DIR = None
 # {{{ zygotes
 
 def zyg_hash_seed(base, k):
+    if k == 0:
+        return 0          # PYTHONHASHSEED=0: hash randomisation switched off
     return util.derive("zygote", base, k) % (2**32)
 
 
@@ -93,8 +95,10 @@ def start_zygotes(base):
     for k in range(K_ZYG):
         for opt in (False, True):
             path = os.path.join(_ZYG_DIR, f"z{k}{'O' if opt else ''}.sock")
-            from .driver import no_aslr_prefix
-            cmd = no_aslr_prefix() + [sys.executable] + (["-O"] if opt else []) + [
+            # (nodes keep address-space randomisation: two node processes with the same hash
+            # seed still differ in where their type objects live, and such hashes are
+            # address based)
+            cmd = [sys.executable] + (["-O"] if opt else []) + [
                 "-m", "dst.node_agent", "--zygote", path]
             p = subprocess.Popen(cmd, env=_agent_env(zyg_hash_seed(base, k)), cwd=VERIF_DIR,
                                  stdout=subprocess.PIPE, stdin=subprocess.DEVNULL)
@@ -155,8 +159,10 @@ def generate(seed, tier):
     nn = r.randint(2, 4)
     fresh_run = r.random() < (0.04 if tier == "quick" else 0.08)
     nodes = []
+    seed0_run = r.random() < 0.08      # a run whose nodes all switch hash randomisation off
     for n in range(nn):
-        nodes.append({"zk": r.randrange(K_ZYG), "opt": r.random() < 0.3,
+        nodes.append({"zk": 0 if seed0_run else r.randrange(K_ZYG), "opt": r.random() < 0.3
+                      if not seed0_run else bool(n % 2),
                       "fresh": fresh_run and r.random() < 0.5,
                       "hs": r.randrange(2**32)})
     classes = list(spec.ALL_BUILTIN) + list(GA_FIELDS) + list(USER_FIELDS) * 2
@@ -208,8 +214,11 @@ def generate(seed, tier):
     ctx_terms = []
     for _ in range(r.randint(0, 1)):
         inner = ga.term(1)
+        fn = r.choice([["n", "Variable", [["s", "sin"]]], ["n", "Variable", [["s", "cos"]]],
+                       ["n", "Lookup", [["n", "Variable", [["s", "numpy"]]], ["s", "abs"]]],
+                       ["n", "Lookup", [["n", "Variable", [["s", "math"]]], ["s", "fabs"]]]])
         ctx_terms.append(["n", "Sum", [["t", [
-            ["n", "Call", [["n", "Variable", [["s", r.choice(["sin", "cos"])]]], ["t", [inner]]]],
+            ["n", "Call", [fn, ["t", [inner]]]],
             ["n", "Variable", [["s", r.choice(["x", "y", "z"])]]]]]]])
     ops = []
     have = {n: [] for n in range(nn)}       # node -> handle names (generation-time guess)
@@ -307,8 +316,7 @@ class Node:
         self.proc = None
         self.sock = None
         if cfg.get("fresh"):
-            from .driver import no_aslr_prefix
-            cmd = no_aslr_prefix() + [sys.executable] + (["-O"] if cfg["opt"] else []) + [
+            cmd = [sys.executable] + (["-O"] if cfg["opt"] else []) + [
                 "-m", "dst.node_agent", "--stdio"]
             self.proc = subprocess.Popen(cmd, env=_agent_env(cfg["hs"]), cwd=VERIF_DIR,
                                          stdin=subprocess.PIPE, stdout=subprocess.PIPE)
